@@ -56,7 +56,7 @@ theorem shape_splitArgs : Facts.shape_splitArgs = some "a7348323a0861ddc" := by 
 theorem shape_Conn_Raw : Facts.shape_Conn_Raw = some "5132543dbb42025e" := by decide
 
 /-- [C08] `Conn.write` is the body the model transcribes -/
-theorem shape_Conn_write : Facts.shape_Conn_write = some "d8cc975a2ca4b814" := by decide
+theorem shape_Conn_write : Facts.shape_Conn_write = some "c6a0055d9c7d233d" := by decide
 
 /-- [C08] `Conn.Pass` is the body the model transcribes -/
 theorem shape_Conn_Pass : Facts.shape_Conn_Pass = some "88d768eadebbfed9" := by decide
@@ -171,7 +171,7 @@ theorem shape_Line_Public : Facts.shape_Line_Public = some "b7b34f1deee05ce0" :=
 theorem shape_Line_Copy : Facts.shape_Line_Copy = some "4bc3e325131cb205" := by decide
 
 /-- [C02] `Line.argslen` is the body the model transcribes -/
-theorem shape_Line_argslen : Facts.shape_Line_argslen = some "4bc497c6842944f2" := by decide
+theorem shape_Line_argslen : Facts.shape_Line_argslen = some "6d67a1dc4140e637" := by decide
 
 
 /-- [C02,C05,C13,C17,C18,C19] the internal handler table is the one `Go.Client.intHandler` transcribes -/
@@ -384,7 +384,7 @@ theorem shape_st_newNick : Facts.shape_st_newNick = some "db7033187a769df5" := b
 theorem shape_st_newChannel : Facts.shape_st_newChannel = some "362560a59c5095b8" := by decide
 
 /-- [C03,C06,C07,C09] `Conn.send` is the body the model transcribes -/
-theorem shape_Conn_send : Facts.shape_Conn_send = some "4d182839e3592463" := by decide
+theorem shape_Conn_send : Facts.shape_Conn_send = some "162c8ac5dc0f00b4" := by decide
 
 /-- [C03,C05,C16] `Conn.dispatch` is the body the model transcribes -/
 theorem shape_Conn_dispatch : Facts.shape_Conn_dispatch = some "3d33b8cc2bacfd5b" := by decide
@@ -441,7 +441,7 @@ theorem shape_Conn_addSTHandlers : Facts.shape_Conn_addSTHandlers = some "3f2e60
 theorem shape_Conn_delSTHandlers : Facts.shape_Conn_delSTHandlers = some "3b3b0f98101671cd" := by decide
 
 /-- [C01,C02,C03,C06,C07] `Conn.recvFor` is the body the model transcribes -/
-theorem shape_Conn_recvFor : Facts.shape_Conn_recvFor = some "273e21144237319b" := by decide
+theorem shape_Conn_recvFor : Facts.shape_Conn_recvFor = some "ba6d696fe339a769" := by decide
 
 
 /-- [C14] every exported tracker method takes the mutex first (`Lock; defer Unlock`), NewNick/NewChannel after a
